@@ -23,6 +23,7 @@ type Call struct {
 	Rule  int    `json:"r,omitempty"`
 	Fn    int    `json:"f,omitempty"`
 	Shape int    `json:"s,omitempty"` // 0 pointer, 1 value, 2 slice of pointers, 3 map of pointers, 4 array of values
+	U     string `json:"u,omitempty"` // histories with global registrations: the suffix that makes this history's rule names unique in the process
 }
 
 const (
@@ -35,16 +36,20 @@ const (
 	EMyFn         = "ValidStructForMyValidFn"
 	EChain        = "NewVStruct.SetRule.SetRule.Valid"           // the builder API used directly: the second SetRule for the same target replaces the first
 	EVarChain     = "NewVVar.SetRules.SetRules.SetValidFn.Valid" // the builder API used directly: rules accumulate
-	EVar          = "Var"
-	EVarForFn     = "VarForFn"
-	EMap          = "Map"
-	EMapFn        = "MapFn"
-	EUrl          = "Url"
-	EUrlForFn     = "UrlForFn"
-	EExplain      = "GetOnlyExplainErr"
-	EGenKV        = "GenValidKV"
-	ESplit        = "ValidNamesSplit"
-	EDump         = "GetDumpStructStr"
+	// ERegister registers a NEW global validation function in the middle of a history (valid.SetCustomerValidFn with a
+	// name nobody used before): calls after it must see it, whatever happened before it. Single-client histories only.
+	ERegister = "SetCustomerValidFn"
+	EVarG     = "Var(rule registered globally in this history)"
+	EVar      = "Var"
+	EVarForFn = "VarForFn"
+	EMap      = "Map"
+	EMapFn    = "MapFn"
+	EUrl      = "Url"
+	EUrlForFn = "UrlForFn"
+	EExplain  = "GetOnlyExplainErr"
+	EGenKV    = "GenValidKV"
+	ESplit    = "ValidNamesSplit"
+	EDump     = "GetDumpStructStr"
 )
 
 var structEntries = []string{EStruct, EStructForFn, EStructForFns, ENested, EValidate, ERuleFirst, EMyFn, EChain}
@@ -76,10 +81,42 @@ func (c Call) String() string {
 }
 
 func (c Call) Key() string {
-	return fmt.Sprintf("%s|%d|%d|%s|%d|%d|%d", c.Entry, c.Type, c.Val, c.Tag, c.Rule, c.Fn, c.Shape)
+	return fmt.Sprintf("%s|%d|%d|%s|%d|%d|%d|%s", c.Entry, c.Type, c.Val, c.Tag, c.Rule, c.Fn, c.Shape, c.U)
+}
+
+// gName is the j-th global rule name of the history with suffix u.
+func gName(u string, j int) string { return fmt.Sprintf("zzg%s_%d", u, j) }
+
+// per-history struct types whose tag names a rule of that history: struct{ Code string `valid:"<gName>"`; Name string `valid:"required,le=3"` }
+var perRunTypes = map[string]reflect.Type{}
+
+func perRunType(u string, j int) reflect.Type {
+	k := gName(u, j)
+	if t, ok := perRunTypes[k]; ok {
+		return t
+	}
+	t := reflect.StructOf([]reflect.StructField{
+		{Name: "Code", Type: reflect.TypeOf(""), Tag: reflect.StructTag(`valid:"` + k + `" v2:"required,` + k + `"`)},
+		{Name: "Name", Type: reflect.TypeOf(""), Tag: `valid:"required,le=3" v2:"le=1"`},
+	})
+	if len(perRunTypes) > 20000 {
+		perRunTypes = map[string]reflect.Type{}
+	}
+	perRunTypes[k] = t
+	return t
+}
+
+func perRunValue(u string, j, v int) interface{} {
+	p := reflect.New(perRunType(u, j))
+	p.Elem().Field(0).SetString(strN(v % 5))
+	p.Elem().Field(1).SetString(strN((v / 5) % 6))
+	return p.Interface()
 }
 
 func typeName(t int) string {
+	if t >= 3000 {
+		return fmt.Sprintf("history-type%d", t-3000)
+	}
 	if t >= 1000 {
 		return fmt.Sprintf("dyn%d", t-1000)
 	}
@@ -221,6 +258,14 @@ func countGroups(m map[string]string) int {
 func (c Call) build() *args {
 	a := &args{}
 	switch {
+	case c.Type >= 3000 && c.IsStruct():
+		a.src = perRunValue(c.U, c.Type-3000, c.Val)
+		a.rule = mkRule(c.Rule)
+		a.fns = mkFns(c.Fn)
+	case c.Entry == ERegister:
+	case c.Entry == EVarG:
+		a.src = varVals[c.Val%len(varVals)]()
+		a.rules = []string{gName(c.U, c.Rule)}
 	case c.IsStruct() || c.Entry == EDump:
 		mkv := func(i int) interface{} {
 			x := mkValue(c.Type, i)
@@ -454,6 +499,11 @@ func (c Call) Exec() (res Result) {
 			}
 		}
 		errRes(v.Valid(a.src))
+	case ERegister:
+		valid.SetCustomerValidFn(gName(c.U, c.Val), evenFn("g"+fmt.Sprint(c.Val)))
+		res.Canon = "nil"
+	case EVarG:
+		errRes(valid.Var(a.src, a.rules...))
 	case EVar:
 		errRes(valid.Var(a.src, a.rules...))
 	case EVarChain:
